@@ -453,9 +453,6 @@ func NewLocalMatOn(it *Interp, rows, cols int) *LocalMat {
 // (`for j := i; !done[j]; j = pi[j]`) and counted loops over constants. Returns false, without having run the body, if
 // the condition is not decided at entry (the symbolic treatment takes over).
 func (it *Interp) concreteLoop(x *ast.ForStmt) bool {
-	if x.Cond == nil {
-		return false
-	}
 	it.env = append(it.env, map[types.Object]Value{})
 	pop := func() {
 		if len(it.env) > 0 {
@@ -473,6 +470,9 @@ func (it *Interp) concreteLoop(x *ast.ForStmt) bool {
 		it.stmt(x.Init)
 	}
 	decided := func() (bool, bool) {
+		if x.Cond == nil {
+			return true, true // for { ... }: left by break, return or panic
+		}
 		c := it.evalBool(x.Cond)
 		for c != nil && !c.Known && c.Op == "not" && c.L != nil && c.L.Known {
 			c = &BoolVal{Known: true, V: !c.L.V}
